@@ -1853,6 +1853,13 @@ where
                 }
             }
             Message::Subscribe(subscribe) => {
+                // Nb. An inverted time range matches nothing. The gossip store panics
+                // on such a range, so it must not be passed through from the network.
+                if subscribe.since > subscribe.until {
+                    debug!(target: "service", "Ignoring inverted time range in subscription from {remote}");
+                    peer.subscribe = Some(subscribe);
+                    return Ok(());
+                }
                 // Filter announcements by interest.
                 match self
                     .db
